@@ -44,10 +44,13 @@ def _(c):
     c.self_("TransactionManager")
     c.returns(Opt(STR))
     c.loop(0, header="for group_id, _, _ in self._pending_txn_offsets", unroll=1)
-    c.ensures("the-first-pending-group-unless-one-is-already-in-the-transaction",
-              "result == ite(self._txn_consumer_group is None and len(self._pending_txn_offsets) > 0,"
+    # C07 "all offset commits of a transaction": a transaction may carry offsets of several groups; each group is added to the
+    # transaction (AddOffsetsToTxn) before its offsets are committed - the coordinator writes markers only for groups it added
+    c.ensures("the-group-of-the-first-pending-offsets-unless-it-is-already-in-the-transaction",
+              "result == ite(len(self._pending_txn_offsets) > 0 and self._pending_txn_offsets[0][0] not in self._txn_consumer_groups,"
               " some_str(self._pending_txn_offsets[0][0]), none_str())")
     c.ensures("nothing-modified", "unchanged(self)")
+    c.replay_fn = lambda model, ob=None: {"script": _GROUPS_SCRIPT}
 
 
 @contract(TMOD + ":TransactionManager.offsets_to_commit", "C07")
@@ -56,10 +59,24 @@ def _(c):
     c.returns(Opt(Tup(OFFS, STR)))
     c.loop(0, header="for group_id, offsets, _ in self._pending_txn_offsets", unroll=1)
     c.ensures("offsets-are-committed-only-after-their-group-was-added",
-              "implies(result is not None, self._txn_consumer_group is not None and len(self._pending_txn_offsets) > 0"
+              "implies(result is not None, len(self._pending_txn_offsets) > 0 and self._pending_txn_offsets[0][0] in self._txn_consumer_groups"
               " and result[0] == self._pending_txn_offsets[0][1] and result[1] == self._pending_txn_offsets[0][0])")
-    c.ensures("none-iff-nothing-to-commit-yet", "(result is None) == (self._txn_consumer_group is None or len(self._pending_txn_offsets) == 0)")
+    c.ensures("none-iff-nothing-to-commit-yet", "(result is None) == (len(self._pending_txn_offsets) == 0 or self._pending_txn_offsets[0][0] not in self._txn_consumer_groups)")
     c.ensures("nothing-modified", "unchanged(self)")
+    c.replay_fn = lambda model, ob=None: {"script": _GROUPS_SCRIPT}
+
+
+# replay: a real transactional producer over a stubbed client; offsets for one, two and three consumer groups are sent to one
+# transaction: every group's TxnOffsetCommit must be preceded by an AddOffsetsToTxn for it
+_GROUPS_SCRIPT = '''
+import sys, logging, warnings
+logging.disable(logging.CRITICAL)
+warnings.simplefilter("ignore")
+sys.path.insert(0, "/verif")
+from specs import abortable_replay
+bad = abortable_replay.groups_sweep()
+VIOLATED = bool(bad); DETAIL = "%d problems: %s" % (len(bad), bad[:1])
+'''
 
 
 @specfn("some_str")
@@ -91,12 +108,13 @@ def _(c):
     ])
     c.hook("before", "self._do_add_offsets_to_txn", [
         ("assert", "partitions-first", "set_is_empty(%s._pending_txn_partitions)" % TM),
-        ("assert", "registers-the-first-pending-group", "%s._txn_consumer_group is None and len(%s._pending_txn_offsets) > 0"
-         " and a0 == %s._pending_txn_offsets[0][0]" % (TM, TM, TM)),
+        ("assert", "registers-the-group-of-the-first-pending-offsets-not-yet-in-the-transaction", "len(%s._pending_txn_offsets) > 0"
+         " and a0 == %s._pending_txn_offsets[0][0] and a0 not in %s._txn_consumer_groups" % (TM, TM, TM)),
     ])
     c.hook("before", "self._do_txn_offset_commit", [
         ("assert", "offsets-committed-only-after-partitions-and-group-are-registered",
-         "set_is_empty(%s._pending_txn_partitions) and %s._txn_consumer_group is not None" % (TM, TM)),
+         "set_is_empty(%s._pending_txn_partitions) and len(%s._pending_txn_offsets) > 0"
+         " and %s._pending_txn_offsets[0][0] in %s._txn_consumer_groups" % (TM, TM, TM, TM)),
         ("assert", "commits-the-first-pending-offsets", "len(%s._pending_txn_offsets) > 0 and a0 == %s._pending_txn_offsets[0][1]"
          " and a1 == %s._pending_txn_offsets[0][0]" % (TM, TM, TM)),
     ])
@@ -134,7 +152,7 @@ def _(c):
            note="EndTxnHandler.__init__: stores its arguments")
     c.call("handler.do", returns=BOOL, havoc_all=True, raises=["KafkaError", "CancelledError"], note="BaseHandler.do: one request/response round")
     c.modifies("TransactionManager.state", "TransactionManager._txn_partitions", "TransactionManager._pending_txn_partitions",
-               "TransactionManager._txn_consumer_group", "TransactionManager._transaction_waiter", "Future.state", "Future.nres")
+               "TransactionManager._txn_consumer_groups", "TransactionManager._transaction_waiter", "Future.state", "Future.nres")
     c.raises("fatal-or-cancelled", "BaseException")
     # the transaction manager's object invariant is re-established by each of its methods (C16 contracts), all of which
     # are synchronous: it holds at entry and whenever this task resumes; no transition targets UNINITIALIZED (table)
@@ -147,8 +165,22 @@ def _(c):
     ])
     c.hook("before", "txn_manager.complete_transaction", [
         ("assert", "completed-without-a-request-only-if-nothing-was-ever-registered",
-         "$flushed and set_is_empty(txn_manager._txn_partitions) and txn_manager._txn_consumer_group is None"),
+         "$flushed and set_is_empty(txn_manager._txn_partitions) and set_is_empty(txn_manager._txn_consumer_groups)"),
     ])
+    c.replay_fn = lambda model, ob=None: {"script": _TXN_END_SCRIPT}
+
+
+# replay: a real transactional producer over a stubbed client whose partition leader answers Produce late; the transaction is
+# committed / aborted without awaiting the send futures
+_TXN_END_SCRIPT = '''
+import sys, logging, warnings
+logging.disable(logging.CRITICAL)
+warnings.simplefilter("ignore")
+sys.path.insert(0, "/verif")
+from specs import abortable_replay
+bad = abortable_replay.in_flight_sweep()
+VIOLATED = bool(bad); DETAIL = "%d of 2 ways to end the transaction: %s" % (len(bad), bad[:1])
+'''
 
 
 classmodel("EndTxnHandler", {"_sender": Ref("Sender"), "_default_backoff": REAL, "_commit_result": TR}, real=MOD + ":EndTxnHandler")
@@ -164,7 +196,7 @@ def _(c):
     tm_invariant(c, "self._sender._txn_manager")
     c.call("self._sender._coordinator_dead", note="forgets the cached coordinator of that kind")
     c.modifies("TransactionManager.state", "TransactionManager._txn_partitions", "TransactionManager._pending_txn_partitions",
-               "TransactionManager._txn_consumer_group", "TransactionManager._transaction_waiter", "Future.state", "Future.nres")
+               "TransactionManager._txn_consumer_groups", "TransactionManager._transaction_waiter", "Future.state", "Future.nres")
     c.raises("fenced-or-fatal", "Exception")
     c.hook("before", "txn_manager.complete_transaction", [
         ("assert", "transaction-completes-only-on-the-coordinators-no-error", "Errors.for_code(resp.error_code) == Errors.NoError"),
@@ -191,12 +223,12 @@ def _(c):
     c.call("self._sender._coordinator_dead", note="forgets the cached coordinator of that kind")
     c.call("TopicAuthorizationFailedError", returns=EXC, note="exception constructor")
     c.call("txn_manager.error_transaction", modifies=["TransactionManager.state", "TransactionManager._txn_partitions",
-           "TransactionManager._pending_txn_partitions", "TransactionManager._txn_consumer_group", "TransactionManager._pending_txn_offsets",
+           "TransactionManager._pending_txn_partitions", "TransactionManager._txn_consumer_groups", "TransactionManager._pending_txn_offsets",
            "Future.state", "Future.nres", "Future.exc"], raises=["AssertionError"],
            note="TransactionManager.error_transaction (under contract, C16): abstracted here because its preconditions "
                 "(a transaction is open) are facts about the caller's history")
     c.modifies("TransactionManager.state", "TransactionManager._txn_partitions", "TransactionManager._pending_txn_partitions",
-               "TransactionManager._txn_consumer_group", "TransactionManager._transaction_waiter", "TransactionManager._pending_txn_offsets",
+               "TransactionManager._txn_consumer_groups", "TransactionManager._transaction_waiter", "TransactionManager._pending_txn_offsets",
                "Future.state", "Future.nres", "Future.exc")
     c.raises("fenced-fatal-or-answer-for-an-unrequested-partition", "Exception")
     c.loop(0, header="for topic, partitions in resp.errors", invariants=[])
@@ -250,7 +282,7 @@ def _(c):
 
 
 # ------------------------------------------------------------------ Sender._sender_routine (what may be drained, and when)
-@contract(MOD + ":Sender._sender_routine", ["C01", "C07"])
+@contract(MOD + ":Sender._sender_routine", ["C01", "C07", "C19"])
 def _(c):
     c.self_("Sender")
     _txn_tm(c)
@@ -286,9 +318,15 @@ def _(c):
     c.modifies("self._in_flight", "self._muted_partitions", "TransactionManager._task_waiter", "Future.state", "Future.nres", "Future.exc",
                "MessageAccumulator.*", "MessageBatch.*", "BatchBuilder.*", "TransactionManager._sequence_numbers")
     c.raises("fatal-or-unexpected", "BaseException")
-    c.loop(0, header="while True", invariants=[])
-    c.loop(1, header="for node_id, node_batches in batches.items()", invariants=[])
+    # C19 "no task ... created by that client is still alive": Sender.close() cancels this routine, which then awaits the
+    # tasks in `tasks` - the transaction-coordination request it started and has not seen finished has to be one of them at
+    # every suspension (waiters are not awaited on exit)
+    OWN = "implies(txn_task is not None and not txn_task.done(), txn_task in tasks)"
+    c.loop(0, header="while True", invariants=[("the-transactional-request-in-flight-is-among-the-tasks-awaited-on-close", OWN)])
+    c.hook("before", "asyncio.wait", [("assert", "the-transactional-request-in-flight-is-among-the-tasks-awaited-on-close", OWN)])
+    c.loop(1, header="for node_id, node_batches in batches.items()", invariants=[("tasks-only-grow-here", OWN)])
     c.loop(2, header="for tp in node_batches", invariants=[
+        ("tasks-only-grow-here", OWN),
         ("partitions-visited-so-far-are-muted", "forall(TP, lambda q: implies(q in $done, q in self._muted_partitions))"),
         ("node-marked-in-flight", "node_id in self._in_flight"),
     ])
